@@ -1,76 +1,67 @@
 /* Construction of the bounded descriptor shape and of an arbitrary object (included AFTER cat.c). */
 #ifndef L1_BUILD_H
 #define L1_BUILD_H
-static const char *h_pick_str(char *arr)
-{
-        size_t k;
-        for (k = 0; k < H_NL; k++)
-                arr[k] = nondet_char();
-        arr[H_NL] = 0;
-        return arr;
-}
+/* Every pointer of the shape is a function of small integer choices kept in h_ix: the proof harness draws the
+ * choices nondeterministically, the native replay injects the counterexample's choices; h_apply_choices() then
+ * builds the same pointers in both. */
+static struct h_choices {
+        _Bool has_descr[H_NC], has_write[H_NC], has_read[H_NC], has_run[H_NC], has_test[H_NC], has_var[H_NC];
+        _Bool v_has_name[H_NC][H_NV], v_has_w[H_NC][H_NV], v_has_r[H_NC][H_NV];
+        size_t ng, n0, n1;
+        _Bool mutex_on;
+        size_t at_cmd, at_var_i, at_var_j, un_cmd, un_var_i, un_var_j, ring_cmd[H_RING];
+        int at_wb, un_wb;
+} h_ix;
 
-static void h_build_descriptor(void)
+static const struct cat_command *h_cmd_at(size_t i) { return (i < H_NC) ? &h_cmds[i] : NULL; }
+static const struct cat_variable *h_var_at(size_t i, size_t j) { return (i < H_NC && j < H_NV) ? &h_vars[i][j] : NULL; }
+static const char *h_wb_at(int k, const char *half) { return (k == 0) ? &h_crlf[0] : (k == 1) ? &h_crlf[1] : (k == 2) ? half : NULL; }
+
+static void h_apply_choices(void)
 {
         size_t i, j;
         h_crlf[0] = '\r'; h_crlf[1] = '\n'; h_crlf[2] = 0;
-        for (i = 0; i < H_BUFSZ; i++)
-                h_buf[i] = nondet_uchar();
-#if !H_SHARED
-        for (i = 0; i < H_UBUFSZ + 1; i++)
-                h_ubuf[i] = nondet_uchar();
-#endif
         for (i = 0; i < H_NC; i++) {
                 struct cat_command *c = &h_cmds[i];
-                c->name = h_pick_str(h_names[i]);
-                __CPROVER_assume(h_names[i][0] != 0);   /* domain: command names are not empty */
-                c->description = NB() ? h_pick_str(h_descr[i]) : NULL;
-                c->write = NB() ? e_cmd_write : NULL;
-                c->read = NB() ? e_cmd_read : NULL;
-                c->run = NB() ? e_cmd_run : NULL;
-                c->test = NB() ? e_cmd_test : NULL;
-                c->var = NB() ? h_vars[i] : NULL;
-                c->var_num = nondet_size();
-                __CPROVER_assume(c->var_num <= H_NV);
-                c->need_all_vars = NB(); c->only_test = NB(); c->disable = NB(); c->implicit_write = NB();
-                /* precondition asserted by cat_init: implicit-write commands have no read/run/test handler */
-                __CPROVER_assume(!c->implicit_write || (c->read == NULL && c->run == NULL && c->test == NULL));
+                h_names[i][H_NL] = 0; h_descr[i][H_NL] = 0;
+                c->name = h_names[i];
+                c->description = h_ix.has_descr[i] ? h_descr[i] : NULL;
+                c->write = h_ix.has_write[i] ? e_cmd_write : NULL;
+                c->read = h_ix.has_read[i] ? e_cmd_read : NULL;
+                c->run = h_ix.has_run[i] ? e_cmd_run : NULL;
+                c->test = h_ix.has_test[i] ? e_cmd_test : NULL;
+                c->var = h_ix.has_var[i] ? h_vars[i] : NULL;
                 for (j = 0; j < H_NV; j++) {
                         struct cat_variable *v = &h_vars[i][j];
-                        size_t k;
-                        int t = nondet_int(), a = nondet_int();
-                        __CPROVER_assume(t >= CAT_VAR_INT_DEC && t <= CAT_VAR_BUF_STRING && a >= CAT_VAR_ACCESS_READ_WRITE && a <= CAT_VAR_ACCESS_WRITE_ONLY);
-                        v->name = NB() ? h_pick_str(h_vnames[i][j]) : NULL;
-                        v->type = (cat_var_type)t;
-                        v->access = (cat_var_access)a;
+                        h_vnames[i][j][H_NL] = 0;
+                        v->name = h_ix.v_has_name[i][j] ? h_vnames[i][j] : NULL;
                         v->data = h_vdata[i][j];
-                        v->data_size = nondet_size();
-                        __CPROVER_assume(v->data_size >= 1 && v->data_size <= H_DS);
-                        v->write = NB() ? e_var_write : NULL;
-                        v->read = NB() ? e_var_read : NULL;
-                        for (k = 0; k < H_DS; k++)
-                                h_vdata[i][j][k] = nondet_uchar();
+                        v->write = h_ix.v_has_w[i][j] ? e_var_write : NULL;
+                        v->read = h_ix.v_has_r[i][j] ? e_var_read : NULL;
                 }
         }
         /* groups partition the first g_ncmds pool commands, in registration order */
-        {
-                size_t ng = NB() ? 1 : 2, n0 = nondet_size(), n1 = nondet_size();
-                __CPROVER_assume(n0 >= 1 && n0 <= H_NC);
-                if (ng == 1) { n1 = 0; } else { __CPROVER_assume(n1 >= 1 && n1 <= H_NC && n0 + n1 <= H_NC); }
-                h_grp[0].name = NULL; h_grp[0].cmd = &h_cmds[0]; h_grp[0].cmd_num = n0; h_grp[0].disable = NB();
-                h_grp[1].name = NULL; h_grp[1].cmd = &h_cmds[n0 < H_NC ? n0 : 0]; h_grp[1].cmd_num = n1; h_grp[1].disable = NB();
-                h_grp_ptrs[0] = &h_grp[0]; h_grp_ptrs[1] = &h_grp[1];
-                h_desc.cmd_group = h_grp_ptrs; h_desc.cmd_group_num = ng;
-                g_ncmds = n0 + n1;
-        }
+        h_grp[0].name = NULL; h_grp[0].cmd = &h_cmds[0]; h_grp[0].cmd_num = h_ix.n0;
+        h_grp[1].name = NULL; h_grp[1].cmd = &h_cmds[h_ix.n0 < H_NC ? h_ix.n0 : 0]; h_grp[1].cmd_num = h_ix.n1;
+        h_grp_ptrs[0] = &h_grp[0]; h_grp_ptrs[1] = &h_grp[1];
+        h_desc.cmd_group = h_grp_ptrs; h_desc.cmd_group_num = h_ix.ng;
+        g_ncmds = h_ix.n0 + h_ix.n1;
         h_desc.buf = h_buf; h_desc.buf_size = H_BUFSZ;
 #if H_SHARED
-        h_desc.unsolicited_buf = NULL; h_desc.unsolicited_buf_size = nondet_size();
+        h_desc.unsolicited_buf = NULL;
 #else
         h_desc.unsolicited_buf = h_ubuf; h_desc.unsolicited_buf_size = H_UBUFSZ;
 #endif
         h_io.read = e_io_read; h_io.write = e_io_write;
         h_mutex.lock = e_lock; h_mutex.unlock = e_unlock;
+        h_obj.desc = &h_desc; h_obj.io = &h_io; h_obj.mutex = h_ix.mutex_on ? &h_mutex : NULL;
+        h_obj.commands_num = g_ncmds;
+        h_obj.cmd = h_cmd_at(h_ix.at_cmd); h_obj.var = h_var_at(h_ix.at_var_i, h_ix.at_var_j);
+        h_obj.write_buf = h_wb_at(h_ix.at_wb, (const char *)h_buf);
+        h_obj.unsolicited_fsm.cmd = h_cmd_at(h_ix.un_cmd); h_obj.unsolicited_fsm.var = h_var_at(h_ix.un_var_i, h_ix.un_var_j);
+        h_obj.unsolicited_fsm.write_buf = h_wb_at(h_ix.un_wb, (const char *)H_UBUF);
+        for (j = 0; j < H_RING; j++)
+                h_obj.unsolicited_fsm.unsolicited_cmd_buffer[j].cmd = h_cmd_at(h_ix.ring_cmd[j]);
 }
 
 static const struct cat_command *h_pick_cmd(void)
@@ -80,36 +71,76 @@ static const struct cat_command *h_pick_cmd(void)
         return &h_cmds[i];
 }
 
-static const struct cat_variable *h_pick_var(void)
+#ifndef NATIVE_REPLAY
+static void h_fill_str(char *arr)
 {
-        size_t i = nondet_size(), j = nondet_size();
-        if (i >= H_NC || j >= H_NV) return NULL;
-        return &h_vars[i][j];
+        size_t k;
+        for (k = 0; k < H_NL; k++)
+                arr[k] = nondet_char();
+        arr[H_NL] = 0;
 }
 
-static const char *h_pick_write_buf(const char *half)
+/* descriptor contents and every choice nondeterministic */
+static void h_build_descriptor(void)
 {
-        int k = nondet_int();
-        return (k == 0) ? &h_crlf[0] : (k == 1) ? &h_crlf[1] : (k == 2) ? half : NULL;
+        size_t i, j;
+        for (i = 0; i < H_BUFSZ; i++)
+                h_buf[i] = nondet_uchar();
+#if !H_SHARED
+        for (i = 0; i < H_UBUFSZ + 1; i++)
+                h_ubuf[i] = nondet_uchar();
+#endif
+        for (i = 0; i < H_NC; i++) {
+                struct cat_command *c = &h_cmds[i];
+                h_fill_str(h_names[i]); h_fill_str(h_descr[i]);
+                __CPROVER_assume(h_names[i][0] != 0);   /* domain: command names are not empty */
+                h_ix.has_descr[i] = NB(); h_ix.has_write[i] = NB(); h_ix.has_read[i] = NB(); h_ix.has_run[i] = NB(); h_ix.has_test[i] = NB(); h_ix.has_var[i] = NB();
+                c->var_num = nondet_size();
+                __CPROVER_assume(c->var_num <= H_NV);
+                c->need_all_vars = NB(); c->only_test = NB(); c->disable = NB(); c->implicit_write = NB();
+                /* precondition asserted by cat_init: implicit-write commands have no read/run/test handler */
+                __CPROVER_assume(!c->implicit_write || (!h_ix.has_read[i] && !h_ix.has_run[i] && !h_ix.has_test[i]));
+                for (j = 0; j < H_NV; j++) {
+                        struct cat_variable *v = &h_vars[i][j];
+                        size_t k;
+                        int t = nondet_int(), a = nondet_int();
+                        __CPROVER_assume(t >= CAT_VAR_INT_DEC && t <= CAT_VAR_BUF_STRING && a >= CAT_VAR_ACCESS_READ_WRITE && a <= CAT_VAR_ACCESS_WRITE_ONLY);
+                        h_fill_str(h_vnames[i][j]);
+                        h_ix.v_has_name[i][j] = NB(); h_ix.v_has_w[i][j] = NB(); h_ix.v_has_r[i][j] = NB();
+                        v->type = (cat_var_type)t;
+                        v->access = (cat_var_access)a;
+                        v->data_size = nondet_size();
+                        __CPROVER_assume(v->data_size >= 1 && v->data_size <= H_DS);
+                        for (k = 0; k < H_DS; k++)
+                                h_vdata[i][j][k] = nondet_uchar();
+                }
+        }
+        h_ix.ng = NB() ? 1 : 2; h_ix.n0 = nondet_size(); h_ix.n1 = nondet_size();
+        __CPROVER_assume(h_ix.n0 >= 1 && h_ix.n0 <= H_NC);
+        if (h_ix.ng == 1) { h_ix.n1 = 0; } else { __CPROVER_assume(h_ix.n1 >= 1 && h_ix.n1 <= H_NC && h_ix.n0 + h_ix.n1 <= H_NC); }
+        h_grp[0].disable = NB(); h_grp[1].disable = NB();
+#if H_SHARED
+        h_desc.unsolicited_buf_size = nondet_size();
+#endif
 }
 
 /* every field of the object nondeterministic; pointers chosen among their legal targets */
 static void h_build_object(void)
 {
         size_t j;
-        h_obj.desc = &h_desc; h_obj.io = &h_io; h_obj.mutex = NB() ? &h_mutex : NULL;
+        h_ix.mutex_on = NB();
         h_obj.index = nondet_size(); h_obj.partial_cntr = nondet_size(); h_obj.length = nondet_size(); h_obj.position = nondet_size();
-        h_obj.write_size = nondet_size(); h_obj.commands_num = g_ncmds;
-        h_obj.cmd = h_pick_cmd(); h_obj.var = h_pick_var(); h_obj.cmd_type = (cat_cmd_type)nondet_int();
+        h_obj.write_size = nondet_size();
+        h_ix.at_cmd = nondet_size(); h_ix.at_var_i = nondet_size(); h_ix.at_var_j = nondet_size(); h_obj.cmd_type = (cat_cmd_type)nondet_int();
         h_obj.current_char = nondet_char(); h_obj.cr_flag = NB(); h_obj.hold_state_flag = NB(); h_obj.hold_exit_status = nondet_int();
-        h_obj.write_buf = h_pick_write_buf((const char *)h_buf); h_obj.write_state = nondet_int(); h_obj.write_state_after = (cat_state)nondet_int();
+        h_ix.at_wb = nondet_int(); h_obj.write_state = nondet_int(); h_obj.write_state_after = (cat_state)nondet_int();
         h_obj.implicit_write_flag = NB();
         h_obj.unsolicited_fsm.index = nondet_size(); h_obj.unsolicited_fsm.position = nondet_size();
-        h_obj.unsolicited_fsm.cmd = h_pick_cmd(); h_obj.unsolicited_fsm.var = h_pick_var(); h_obj.unsolicited_fsm.cmd_type = (cat_cmd_type)nondet_int();
-        h_obj.unsolicited_fsm.write_buf = h_pick_write_buf((const char *)H_UBUF); h_obj.unsolicited_fsm.write_state = nondet_int();
+        h_ix.un_cmd = nondet_size(); h_ix.un_var_i = nondet_size(); h_ix.un_var_j = nondet_size(); h_obj.unsolicited_fsm.cmd_type = (cat_cmd_type)nondet_int();
+        h_ix.un_wb = nondet_int(); h_obj.unsolicited_fsm.write_state = nondet_int();
         h_obj.unsolicited_fsm.write_state_after = (cat_unsolicited_state)nondet_int();
         for (j = 0; j < H_RING; j++) {
-                h_obj.unsolicited_fsm.unsolicited_cmd_buffer[j].cmd = h_pick_cmd();
+                h_ix.ring_cmd[j] = nondet_size();
                 h_obj.unsolicited_fsm.unsolicited_cmd_buffer[j].type = (cat_cmd_type)nondet_int();
         }
         h_obj.unsolicited_fsm.unsolicited_cmd_buffer_head = nondet_size(); h_obj.unsolicited_fsm.unsolicited_cmd_buffer_tail = nondet_size();
@@ -124,7 +155,9 @@ static void h_build_object(void)
         h_obj.state = (cat_state)nondet_int();
         h_obj.unsolicited_fsm.state = (cat_unsolicited_state)nondet_int();
 #endif
+        h_apply_choices();
 }
+#endif
 
 static void h_reset_logs(void)
 {
